@@ -21,6 +21,8 @@ structure Act where
   m : Nat
 
 structure SModel where
+  lags : Nat
+  leads : Nat
   nE : Nat
   n : Nat
   check : List Nat
@@ -51,6 +53,8 @@ def play (M : SModel) (o : Opts) (u : SState) (t : Int) (a : Act) : SState × Bo
 def keepAct : Act := ⟨.keep, #[], 0⟩
 
 def interp (M : SModel) : Interp SState (Array Float) where
+  lags := M.lags
+  leads := M.leads
   check u t := (M.check.map fun i => (u[i]?.getD #[])[pos M.n t]?.getD 0.0).toArray
   allFinite v := v.all Float.isFinite
   close cur prev := (cur.zip prev).all fun (c, p) => Float.abs (c - p) < M.tol
@@ -97,7 +101,10 @@ def parseModel (j : Json) : R (SModel × World SState) := do
   let vals ← (← arr j "vals").mapM floats
   let status ← parseStatus (← str j "status")
   let iters ← (← arr j "iters").toList.mapM (·.getInt?)
-  pure (⟨nE, n, check, tol, script, beforeS, afterS⟩, ⟨vals, status, iters⟩)
+  let optNat := fun (key : String) => match j.getObjVal? key with
+    | .ok v => v.getNat?.toOption.getD 0
+    | .error _ => 0
+  pure (⟨optNat "lags", optNat "leads", nE, n, check, tol, script, beforeS, afterS⟩, ⟨vals, status, iters⟩)
 
 def resultStr : Result → String
   | .ret true => "ret:T"
@@ -165,4 +172,38 @@ end Drv.Solver
 namespace Drv.Solver
 def handlers : List (String × (Lean.Json → Except String String)) :=
   [("solve_t", handleSolveT), ("solve", handleSolve), ("solve_period", handleSolvePeriod)]
+end Drv.Solver
+
+namespace Drv.Solver
+
+def labelStr : TraceLabel → String
+  | .start => "start"
+  | .before => "before"
+  | .iter k => toString k
+  | .«end» => "end"
+
+def traceStr (l : List (TraceLabel × Array Float)) : String :=
+  joinWith ";" (l.map fun (lab, v) => labelStr lab ++ ":" ++ joinWith "," (v.toList.map bitsStr))
+
+/-- kind `traced_solve_t`: `{model…, opts, t, traced: [var indices], on: bool, repeat: n}`
+    → `result|status|iters|values|trace` after `repeat` consecutive traced solves of the same period. -/
+def handleTraced (j : Json) : R String := do
+  let (M, w) ← parseModel j
+  let o ← parseOpts (← obj j "opts")
+  let t ← int j "t"
+  let tv ← (← arr j "traced").toList.mapM (·.getNat?)
+  let on ← bool j "on"
+  let rep ← nat j "repeat"
+  let snap : SState → Int → Array Float := fun u t =>
+    (tv.map fun i => (u[i]?.getD #[])[pos M.n t]?.getD 0.0).toArray
+  let step := fun (acc : World (SState × List (TraceLabel × Array Float)) × List String) (_ : Nat) =>
+    let (w', r) := tracedSolveT (interp M) snap on o M.n t acc.1
+    (w', acc.2 ++ [resultStr r])
+  let (w', rs) := (List.range rep).foldl step (⟨(w.user, []), w.status, w.iters⟩, [])
+  pure (joinWith "," rs ++ "|" ++ statusStr w'.status ++ "|" ++ joinWith "," (w'.iters.map toString) ++ "|" ++
+    joinWith ";" (w'.user.1.toList.map fun row => joinWith "," (row.toList.map bitsStr)) ++ "|" ++ traceStr w'.user.2)
+
+def handlers2 : List (String × (Lean.Json → Except String String)) :=
+  handlers ++ [("traced_solve_t", handleTraced)]
+
 end Drv.Solver
